@@ -266,20 +266,39 @@ def Ev.isTextB : Ev → Bool
   | .text _ => true
   | _ => false
 
+/-- a text without `>` holds no `]]>` -/
+theorem hasCdataEnd_of_noGt : ∀ (raw : Bytes), (∀ c ∈ raw, c ≠ cGt) → hasCdataEnd raw = false
+  | [], _ => rfl
+  | b :: bs, h => by
+    have ih := hasCdataEnd_of_noGt bs (fun c hc => h c (by simp [hc]))
+    have hs : startsWith [93, 93, 62] (b :: bs) = false := by
+      cases hsw : startsWith [93, 93, 62] (b :: bs) with
+      | false => rfl
+      | true =>
+        simp only [startsWith, beq_iff_eq] at hsw
+        have hmem : (62 : UInt8) ∈ List.take 3 (b :: bs) := by
+          have : List.take [93, 93, 62].length (b :: bs) = [93, 93, 62] := hsw
+          simp only [List.length_cons, List.length_nil] at this
+          rw [this]; simp
+        exact absurd rfl (h 62 (List.mem_of_mem_take hmem))
+    simp [hasCdataEnd, hs, ih]
+
 /-- `headNotText t`: `t` is empty or begins with a tag -/
 def headNotText : List Ev → Bool
   | [] => true
   | e :: _ => !e.isTextB
 
 /-- well-nested w.r.t. the stack of open element names; names are good, attributes at most the `xmlns` one, texts are
-non-empty, `<`-free and followed by a tag (never by another text); a text outside every element (empty stack) is
-white space -/
+non-empty, free of `<` and of `]]>` (since the repair of `xml-illformed-accepted:cdata-end` the deserialiser refuses a
+text with `]]>`) and followed by a tag (never by another text); a text outside every element (empty stack) is white
+space -/
 def WN : List Bytes → List Ev → Prop
   | _, [] => True
   | st, .start n r :: t => goodName n = true ∧ GoodRest r ∧ WN (n :: st) t
   | st, .stop n :: t => goodName n = true ∧ (∃ st', st = n :: st' ∧ WN st' t)
   | st, .text raw :: t =>
-    (st ≠ [] ∨ raw.all isWs = true) ∧ raw ≠ [] ∧ (∀ c ∈ raw, c ≠ cLt) ∧ headNotText t = true ∧ WN st t
+    ((st ≠ [] ∨ raw.all isWs = true) ∧ hasCdataEnd raw = false) ∧ raw ≠ [] ∧ (∀ c ∈ raw, c ≠ cLt) ∧
+      headNotText t = true ∧ WN st t
   | _, .cdata _ :: _ => False     -- the serialiser never writes a CDATA section
   | _, .bad _ :: _ => False
 
@@ -397,10 +416,10 @@ theorem deEvents_toQ : ∀ (evs : List Ev) (st : List Bytes), WN st evs → deEv
     have ih := deEvents_toQ t st h.2.2.2.2
     have hcond : ¬ (st.length = 0 ∧ raw.all isWs = false) := by
       intro hc
-      rcases h.1 with h1 | h1
+      rcases h.1.1 with h1 | h1
       · exact h1 (List.length_eq_zero_iff.mp hc.1)
       · rw [h1] at hc; exact absurd hc.2 (by simp)
-    simp only [List.map_cons, Ev.toQ, deEventsAt, if_neg hcond, ih]
+    simp only [List.map_cons, Ev.toQ, deEventsAt, if_neg hcond, h.1.2, Bool.false_eq_true, if_false, ih]
   | .cdata _ :: _, _, h => by simp [WN] at h
   | .bad _ :: _, _, h => by simp [WN] at h
 
